@@ -263,6 +263,10 @@ def _build_tree(
         except FileNotFoundError:
             pass
 
+    if isinstance(fs, LocalFileSystem):
+        # NOTE: the local walk yields normalized roots, so the prefix that is
+        # cut off of them below has to be normalized the same way
+        path = os.path.normpath(path)
     path = path.rstrip(fs.sep)
 
     tree = Tree()
